@@ -246,7 +246,7 @@ session.done -> state.ReleaseState(ctx) -> user.removeState(ctx, st):
     ids, err := db.Read(ctx, ...); if err != nil { log; ids = nil }      // (630a898; before: `return err`, i.e. no statesWG.Done())
     statesLock.Lock; delete(states, st.StateID); Unlock
     defer statesWG.Done()
-    if err := db.Write(...); err != nil { return err }                    // <- returns before st.Close()
+    if err := db.Write(...); err != nil { _ = st.Close(); return err }    // (0873710; before: returned without st.Close())
     store.Delete(...); return st.Close()                                  // closes the state's update queue
 ```
 One user, `n` sessions.  Each critical section of statesLock is one atomic step. -/
@@ -280,7 +280,10 @@ structure TState where
   updaterRunning : Bool := true
   quit : Bool := false         -- updateQuitCh closed
   wg : Nat := 0                -- statesWG counter
-  unclosedStates : Nat := 0    -- removeState calls that returned before `st.Close()`: the update queue's goroutine stays
+  -- ghost counters
+  logins : Nat := 0            -- states created (statesWG.Add)
+  dones : Nat := 0             -- statesWG.Done() calls
+  statesClosed : Nat := 0      -- State.Close calls (each ends the state's update-queue goroutine, state_close_consumer_exits)
   dbOpen : Bool := true
   storeOpen : Bool := true
   useAfterClose : Bool := false  -- a session touched the DB/store after user.close closed it
@@ -299,7 +302,7 @@ inductive TStep where
   | readFail (i : Nat)
   | lockDelete (i : Nat)
   | finishRel (i : Nat)         -- DB write, store delete, state.Close, deferred statesWG.Done()
-  | finishFail (i : Nat)        -- DB write fails: return err, deferred statesWG.Done(); state.Close is skipped
+  | finishFail (i : Nat)        -- DB write fails: state.Close, return err, deferred statesWG.Done()
   | beginClose               -- RemoveUser/Close: usersLock.Lock()
   | closeQuit                -- close(updateQuitCh)
   | updaterExit              -- the update goroutine takes `case <-user.updateQuitCh`
@@ -358,7 +361,7 @@ def enabled (s : TState) : TStep → Bool
   | .dbClosed => s.closer == .closeDB
 
 def apply (s : TState) : TStep → TState
-  | .login i => { s.setSess i .running with wg := s.wg + 1 }
+  | .login i => { s.setSess i .running with wg := s.wg + 1, logins := s.logins + 1 }
   | .leave i => if s.sessAt i == .preauth then s.setSess i .gone else s.setSess i .relRead
   | .observeDone i => s.setSess i .relRead
   | .readOk i => { s.setSess i .relLock with useAfterClose := s.useAfterClose || !s.dbOpen }
@@ -367,10 +370,12 @@ def apply (s : TState) : TStep → TState
   | .lockDelete i => s.setSess i .relWrite
   | .finishRel i =>
     let s' := s.setSess i .gone
-    { s' with wg := s.wg - 1, useAfterClose := s.useAfterClose || !s.dbOpen || !s.storeOpen }
+    { s' with wg := s.wg - 1, dones := s.dones + 1, statesClosed := s.statesClosed + 1,
+              useAfterClose := s.useAfterClose || !s.dbOpen || !s.storeOpen }
   | .finishFail i =>
     let s' := s.setSess i .gone
-    { s' with wg := s.wg - 1, unclosedStates := s.unclosedStates + 1, useAfterClose := s.useAfterClose || !s.dbOpen }
+    { s' with wg := s.wg - 1, dones := s.dones + 1, statesClosed := s.statesClosed + 1,
+              useAfterClose := s.useAfterClose || !s.dbOpen }
   | .beginClose => { s with closer := .locked, usersLock := true }
   | .closeQuit => { s with closer := .waitUpdater, quit := true }
   | .updaterExit => { s with updaterRunning := false }
